@@ -193,6 +193,21 @@ impl LookupId {
 }
 
 
+// FFI-safety of a written type (proved equal to this spec on the real TypeName::is_ffi_safe in unit ffi_safe)
+pub open spec fn is_ptr(t: ast::TypeName) -> bool { t is Reference || t is Box }
+pub open spec fn spec_ffi_safe(t: ast::TypeName) -> bool {
+    match t {
+        ast::TypeName::Option(inner, sd) => if is_ptr(*inner) { sd == StdlibOrDiplomat::Stdlib } else { sd == StdlibOrDiplomat::Diplomat },
+        ast::TypeName::StrReference(_, _, sd) => sd == StdlibOrDiplomat::Diplomat,
+        ast::TypeName::StrSlice(_, sd) => sd == StdlibOrDiplomat::Diplomat,
+        ast::TypeName::PrimitiveSlice(_, _, sd) => sd == StdlibOrDiplomat::Diplomat,
+        ast::TypeName::Unit | ast::TypeName::Write | ast::TypeName::Result(..) | ast::TypeName::Ordering => false,
+        _ => true,
+    }
+}
+#[verifier::external_body] pub fn __is_ffi_safe(t: &ast::TypeName) -> (r: bool) ensures r == spec_ffi_safe(*t) { unimplemented!() }
+
+
 // ======================= oracle: the documented input-position rules =======================
 pub open spec fn is_opaque_path(p: ast::PathType, in_path: ast::Path, env: Env) -> bool {
     ast::spec_resolve(p, in_path, env) is Opaque
@@ -303,8 +318,10 @@ pub open spec fn allowed_in(l: &LookupId, t: ast::TypeName, in_path: ast::Path, 
         ast::TypeName::StrReference(..) => true,
         ast::TypeName::StrSlice(..) => true,
         ast::TypeName::PrimitiveSlice(..) => true,
+        // C10: the macro emits a callback's return type as written (the value is produced by foreign code in the declared
+        // {payload, is_ok} / pointer encoding), so it must be FFI-safe as written - in particular no std Option of a non-pointer
         ast::TypeName::Function(ins, out, _) => !in_struct && all_cb_ok(ins@, in_path, env)
-            && ((*out is Unit) || allowed_in(l, *out, in_path, env, in_struct)),
+            && ((*out is Unit) || (spec_ffi_safe(*out) && allowed_in(l, *out, in_path, env, in_struct))),
         ast::TypeName::Unit => false,
     }
 }
